@@ -19,7 +19,10 @@ import common
 import gen
 import harness
 
-THEOREMS = ["Grc.Opt.newIndex_count", "Grc.Opt.newIndex_none", "Grc.Opt.spec_single_optional", "Grc.Fsm.checkCert_correct"]
+THEOREMS = ["Grc.Opt.model_eq_spec", "Grc.Opt.model_eq_spec_any_order", "Grc.Opt.wfB_sound", "Grc.Opt.exchangeSort_eq",
+            "Grc.Opt.exchangeSort_perm", "Grc.Opt.exchangeSort_sorted", "Grc.Opt.exchangeSort_unique", "Grc.Opt.ranges_good",
+            "Grc.Opt.free", "Grc.Opt.forced", "Grc.Opt.kept_spec",
+            "Grc.Opt.newIndex_count", "Grc.Opt.newIndex_none", "Grc.Opt.spec_single_optional", "Grc.Fsm.checkCert_correct"]
 
 
 def run(tier, seed, replay=None):
@@ -72,6 +75,7 @@ def run(tier, seed, replay=None):
                 f = dict(x.split("=") for x in l.split(" ")[2:])
                 stats["optional_rules"] += int(f["optionalRules"])
                 stats["alternatives"] += int(f["alternatives"])
+                stats["well_formed_trees"] += int(f.get("wellFormedTrees", 0))
                 distinct.add((l, tuple(o["c06"])))
         if fl:
             d = harness.save_case(rep, r, r["name"])
@@ -85,13 +89,14 @@ def run(tier, seed, replay=None):
         "programs": len(results), "programs_accepted": len(acc), "programs_rejected": len(rej),
         "rejected_error_ids": harness.error_ids(rej), "omitted_reference_diagnosed": stats["omitted_reference_diagnosed"],
         "optional_rules": stats["optional_rules"], "alternatives_checked": stats["alternatives"],
+        "optional_rules_covered_by_model_eq_spec (well-formed trees)": stats["well_formed_trees"],
         "traces_validated_against_impl": stats["fonts"] + stats["rejected"], "disagreements_checked": len(rep.violations),
         "evaluations": stats["fonts"] + stats["rejected"], "distinct_nontrivial": len(distinct),
         "rule": "rules whose context is a random tree of optional groups (depth <= 3, up to 8 items; single items, groups, nested, adjacent, identical nested ranges), with substitutions, '^', and (every third program) @n / associations that may point into groups; distinct = distinct (expansion summary, pass headers)",
         "samples": samples, "exhaustive": False,
     })
-    rep.assumptions += ["model = spec is checked per generated rule, not proved for all trees (C07 theorem list is partial: renumbering and the single-group shape are proved)",
-                        "repeated alternatives are behaviourally idempotent"]
+    rep.assumptions += ["model = spec is a theorem for well-formed trees (no group that is merely another group in brackets, no empty group); for the others (counted above as the difference) it is compared per rule up to repeated alternatives, which are behaviourally idempotent",
+                        "the model's functions are a hand transcription of PostParser.cpp (AdjustOptRanges, GenerateOptRanges, PrevRangeSubsumes); the tie is the comparison of every alternative with the rules found in the font"]
     harness.generator_health(rep, results, acc, rej, min_frac=0.4)
     shutil.rmtree(work, ignore_errors=True)
     return rep.finish()
